@@ -267,6 +267,11 @@ Section Cont.
     intros Hn. apply csat_of; [apply bnd_skip_bytes|]. apply sat_bind_ret. apply sat_skip_bytes.
     intros p' _ H. apply sat_ret. auto.
   Qed.
+  Lemma csat_seek_rel p dz : csat p (seek_rel dz) 1 0 (fun _ p' => Z.of_N p' = (Z.of_N p + dz)%Z).
+  Proof.
+    apply csat_of; [apply bnd_seek_rel|]. unfold seek_rel. apply sat_SeekRel. intros H.
+    apply sat_ret. lia.
+  Qed.
   Lemma csat_skip_box m p s : 8 <= p -> p - 8 + s < U64 ->
     csat p (skip_box m s) 2 0 (fun _ p' => p' = p - 8 + s).
   Proof.
@@ -315,7 +320,7 @@ Ltac carith := sat_bools; rewrite ?N2Nat.id in *; sat_consts; lia.
 Ltac csat_prim :=
   first [ eapply csat_rd_u | eapply csat_rd_i | eapply csat_rd_vec | eapply csat_rd_arr
         | eapply csat_get_pos | eapply csat_box_start | eapply csat_skip_bytes_to | eapply csat_seek_to
-        | eapply csat_skip_bytes | eapply csat_skip_box | eapply csat_alloc | eapply csat_step
+        | eapply csat_skip_bytes | eapply csat_skip_box | eapply csat_seek_rel | eapply csat_alloc | eapply csat_step
         | eapply csat_read_header_ext | eapply csat_read_header | eapply csat_add64 | eapply csat_sub64 ].
 
 (** use the facts a primitive's contract gives: split, discharge arithmetic premises, substitute *)
